@@ -478,9 +478,12 @@ def sec_cz(ctx, rng, case):
     ctx.event("diag+cz:%d-cz" % n)
     iops = cirq.two_qubit_matrix_to_cz_isometry(q0, q1, u, partial, atol, clean)
     v, d, n = P.post_cz_isometry(q0, q1, u, iops, partial, atol, clean)
-    if n == 3 and nc < 3 and abs(coords[2]) > 0.5 * atol:
+    near_2cz = abs(coords[2]) < 1e-5  # within 1e-5 of the 2-CZ class (z = 0)
+    if n == 3 and ((nc < 3 and abs(coords[2]) > 0.5 * atol) or (nc == 3 and near_2cz and atol < 1e-8)):
         # explained-by: the diagonal is only split off when num_cnots_required(mat) == 3 (default atol 1e-8, applied to a trace
-        # that is second order in the distance from the 2-CZ class), but the CZ synthesis sees |z| >= atol and spends 3 CZs
+        # that is second order in the distance from the 2-CZ class), but the CZ synthesis sees |z| >= atol and spends 3 CZs;
+        # and when it is split off this close to the class boundary, extract_right_diag leaves a remainder with |z| of a few
+        # 1e-9, which a caller's atol below 1e-8 still counts as a third CZ
         v = [(mon, mech.replace("more-than-2-cz", "3-cz-because-num_cnots_required-underestimates-near-class-boundary"), ok, msg)
              for mon, mech, ok, msg in v]
     _emit(ctx, v, _kak=(u @ np.asarray(dg).conj().T if np.shape(dg) == (4, 4) else u, atol), allow_partial_czs=partial,
